@@ -2780,8 +2780,7 @@ class RedunBackendDb(RedunBackend):
         with with_defer_constraints(self.session):
             if not job.parent_job:
                 # Record top-level job for the execution.
-                current_execution = self._executions.pop(job.execution.id)
-                assert current_execution.job_id is None
+                current_execution = self._executions[job.execution.id]
                 current_execution.job_id = job.id
                 self.session.add(current_execution)
 
@@ -2797,6 +2796,8 @@ class RedunBackendDb(RedunBackend):
             )
             self.session.add(db_job)
             self.session.commit()
+            # Forget the pending Execution only now, so that a retry (db_retry) finds it again.
+            self._executions.pop(job.execution.id, None)
 
         return db_job
 
